@@ -398,6 +398,7 @@ package shell_operator
 //@ trusted func (*Manager).GetHook
 //@   modifies nothing
 //@   ensures result != nil && result.Config != nil && result.HookController != nil && result.RateLimiter != nil && (result.Config.Version == "v0" || result.Config.Version == "v1")
+//@   ensures result.HookController == hook.ctrlOf(hm, name)
 //@   ensures [assumed:admission-links-are-never-nil] result.HookController.AdmissionController != nil ==> forall(k, string, has(result.HookController.AdmissionController.AdmissionLinks, k) ==> result.HookController.AdmissionController.AdmissionLinks[k] != nil)
 //@ package github.com/flant/shell-operator/pkg/hook/controller
 //@ trusted func (*HookController).UnlockKubernetesEventsFor
